@@ -41,7 +41,7 @@ FLOPPY = {1228800: 1, 1474560: 2, 2949120: 3}
 
 
 def strategy(tier):
-    progs = st.one_of(gen.boot(reopen_ok=True), gen.boot(reopen_ok=False), gen.boot(reopen_ok=False), gen.hybrid(reopen_ok=False), gen.bootlinks(reopen_ok=True), gen.twoboots(reopen_ok=True))
+    progs = st.one_of(gen.boot(reopen_ok=True), gen.boot(reopen_ok=False), gen.boot(reopen_ok=False), gen.hybrid(reopen_ok=False), gen.bootlinks(reopen_ok=True), gen.twoboots(reopen_ok=True), gen.fullcat(reopen_ok=True))
     return st.tuples(progs.map(lambda p: dict(p, profile='boot')), st.sampled_from([1, 512, 8192]))
 
 
